@@ -378,7 +378,7 @@ func ruleReply(c *Ctx) {
 		}
 		return nil
 	}
-	sp.Inline = func(t *Tracer, fr *Frame, c ssa.CallInstruction, f *ssa.Function) bool { return f.Parent() != nil }
+	sp.InlineHelpers = true
 	tr := NewTracer(c.P, sp, fn)
 	tr.Run()
 	c.inst(1)
@@ -421,7 +421,8 @@ func ruleReply(c *Ctx) {
 		for _, call := range callsIn(f) {
 			if calleeFunc(call.Common()) == reply {
 				n++
-				c.check(TopLevel(f) == fn, fnName(f), "Reply is only called from the dispatcher", c.P.InstrPos(call), "inside rpc.HandleRequest", "Reply called outside rpc.HandleRequest")
+				_, owned := c.P.ownedBy(f, func(nm string) bool { return nm == fnName(fn) })
+				c.check(owned, fnName(f), "Reply is only called from the dispatcher", c.P.InstrPos(call), "inside rpc.HandleRequest (or a helper only it calls)", "Reply called outside rpc.HandleRequest")
 			}
 		}
 	}
@@ -569,6 +570,20 @@ func elemConsumed(elem ssa.Value) bool {
 				for _, a := range com.Args {
 					if a == v {
 						return true
+					}
+				}
+			}
+			// a continuation stored in a field of the element is called (rcb.cb())
+			if fa, ok := r.(*ssa.FieldAddr); ok && fa.X == v {
+				if _, isSig := fa.Type().(*types.Pointer).Elem().Underlying().(*types.Signature); isSig {
+					for _, r2 := range *fa.Referrers() {
+						if ld, ok := r2.(*ssa.UnOp); ok {
+							for _, r3 := range *ld.Referrers() {
+								if call, ok := r3.(ssa.CallInstruction); ok && call.Common().Value == ssa.Value(ld) {
+									return true
+								}
+							}
+						}
 					}
 				}
 			}
